@@ -1217,18 +1217,24 @@ m4_define(`m4_linear_partition_for_polyhedron_domains',
       = static_cast<const C_@CPP_CLASS@&>(*to_const(y));
     std::pair<C_@CPP_CLASS@|COMMA| Pointset_Powerset<NNC_Polyhedron> >
       r = linear_partition(xx, yy);
-    *p_inters = to_nonconst(&r.first);
-    *p_rest = to_nonconst(&r.second);
+    C_@CPP_CLASS@* r1;
+    Pointset_Powerset<NNC_Polyhedron>* r2;
+    release_pair(r, r1, r2);
+    *p_inters = to_nonconst(r1);
+    *p_rest = to_nonconst(r2);
  }
  else {
-    const C_@CPP_CLASS@& xx
-      = static_cast<const C_@CPP_CLASS@&>(*to_const(x));
-    const C_@CPP_CLASS@& yy
-      = static_cast<const C_@CPP_CLASS@&>(*to_const(y));
-    std::pair<C_@CPP_CLASS@|COMMA| Pointset_Powerset<NNC_Polyhedron> >
+    const NNC_@CPP_CLASS@& xx
+      = static_cast<const NNC_@CPP_CLASS@&>(*to_const(x));
+    const NNC_@CPP_CLASS@& yy
+      = static_cast<const NNC_@CPP_CLASS@&>(*to_const(y));
+    std::pair<NNC_@CPP_CLASS@|COMMA| Pointset_Powerset<NNC_Polyhedron> >
       r = linear_partition(xx, yy);
-    *p_inters = to_nonconst(&r.first);
-    *p_rest = to_nonconst(&r.second);
+    NNC_@CPP_CLASS@* r1;
+    Pointset_Powerset<NNC_Polyhedron>* r2;
+    release_pair(r, r1, r2);
+    *p_inters = to_nonconst(r1);
+    *p_rest = to_nonconst(r2);
 }
   return 0;
 
@@ -1242,8 +1248,11 @@ m4_define(`m4_linear_partition_for_non_polyhedron_domains',
       = static_cast<const @CPP_CLASS@&>(*to_const(y));
     std::pair<@CPP_CLASS@|COMMA| Pointset_Powerset<NNC_Polyhedron> >
       r = linear_partition(xx, yy);
-    *p_inters = to_nonconst(&r.first);
-    *p_rest = to_nonconst(&r.second);
+    @CPP_CLASS@* r1;
+    Pointset_Powerset<NNC_Polyhedron>* r2;
+    release_pair(r, r1, r2);
+    *p_inters = to_nonconst(r1);
+    *p_rest = to_nonconst(r2);
   return 0;
 
 ')
@@ -1264,8 +1273,11 @@ ppl_@CLASS@_approximate_@PARTITION@
     bool finite;
     std::pair<@CPP_CLASS@|COMMA| Pointset_Powerset<Grid> >
       r = approximate_partition(xx, yy, finite);
-    *p_inters = to_nonconst(&r.first);
-    *p_rest = to_nonconst(&r.second);
+    @CPP_CLASS@* r1;
+    Pointset_Powerset<Grid>* r2;
+    release_pair(r, r1, r2);
+    *p_inters = to_nonconst(r1);
+    *p_rest = to_nonconst(r2);
     *p_finite = finite ? 1 : 0;
   return 0;
 }
